@@ -14,6 +14,11 @@ observed o / model m :
    "d": Y, "da": X,                                     a - b (int: interval literal, dt: seconds) ; b + (a - b)
    "rt": [bool, bool, bool]}                            (a+i)-i == a, (a-i)+i == a, b+(a-b) == a
   X = L (int) | D (dt)          impl only: {"err": "<exception type>"}
+  {"k": "hist", "steps": [{"mode": calendar, "a": D, "b": D, "i": secs} ..]}
+      a HISTORY: the steps are executed one after the other in ONE process that switches calendar mode in
+      between (same cycle point time zone), with the lru caches of cycling/iso8601.py empty at the start;
+      observed / model: {"steps": [<as for "dt"> ..]}.  Every step is judged as if it were made alone
+      (`Props/C18.dt_cache_transparent`: the model of a history is the model of its steps).
 -/
 import CylcModel.Util.Drv
 import CylcModel.Points
@@ -171,6 +176,43 @@ def handle (i o : Json) : Except String Reply := do
     let v := judgeCommon o a.inst b.inst (a == b) nonStd obsDtInst obsDtStd
       (fun d => jInt? d == some (a.inst - b.inst)) (if subMin then "sub-minute-truncation: " else "")
     return { model := modelDt a b secs, holds := v.ok, why := v.why }
+  | "hist" =>
+    let steps := (jArrField? i "steps").getD []
+    let obs := (jArrField? o "steps").getD []
+    if (jField? o "err").isSome || obs.length != steps.length then
+      let models ← steps.mapM fun st => do
+        let a ← parseDt ((jField? st "a").getD Json.null)
+        let b ← parseDt ((jField? st "b").getD Json.null)
+        let secs ← (jIntField? st "i").elim (.error "i") .ok
+        return modelDt a b secs
+      return { model := Json.mkObj [("steps", Json.arr models.toArray)], holds := false,
+               why := "the history raised or returned the wrong number of steps" }
+    let mut models : Array Json := #[]
+    let mut badNew : Option String := none
+    let mut badKnown : Option String := none
+    let mut n := 0
+    for (st, ob) in steps.zip obs do
+      n := n + 1
+      let a ← parseDt ((jField? st "a").getD Json.null)
+      let b ← parseDt ((jField? st "b").getD Json.null)
+      let secs ← (jIntField? st "i").elim (.error "i") .ok
+      let mode := (jStrField? st "mode").getD "?"
+      let nonStd := a.spell != 0 || b.spell != 0
+      let subMin := a.inst % 60 != 0 || b.inst % 60 != 0 || secs % 60 != 0
+      let v := judgeCommon ob a.inst b.inst (a == b) nonStd obsDtInst obsDtStd
+        (fun d => jInt? d == some (a.inst - b.inst)) (if subMin then "sub-minute-truncation: " else "")
+      models := models.push (modelDt a b secs)
+      if !v.ok then
+        let msg := v.why ++ s!" [step {n} of the history, calendar {mode}; judged as if the step were made alone]"
+        if v.why.startsWith "hash-nonstandard-spelling:" || v.why.startsWith "sub-minute-truncation:" then
+          if badKnown.isNone then badKnown := some msg
+        else
+          if badNew.isNone then badNew := some msg
+    let model := Json.mkObj [("steps", Json.arr models)]
+    match badNew, badKnown with
+    | some w, _ => return { model := model, holds := false, why := w }
+    | none, some w => return { model := model, holds := false, why := w }
+    | none, none => return { model := model, holds := true, why := "" }
   | s => .error s!"unknown kind {s}"
 
 end CylcModel.DrvC18
